@@ -136,7 +136,7 @@ func (p *parent) run(genFile, outFile string, workers, reps1, reps2 int, only st
 	p.outs = map[int]outcome{}
 	p.stage1 = map[int]outcome{}
 	p.confirmedBad = map[string]int{}
-	p.confirmSem = make(chan struct{}, 1)
+	p.confirmSem = make(chan struct{}, 4)
 	p.self = self
 	p.byID = map[int]job{}
 	for _, j := range jobs {
